@@ -285,7 +285,9 @@ fn struct_init_block<'a>(input: &'a Struct, ctx: &'a ImplContext) -> TokenStream
             let fields: Vec<FieldContainer> = if let Some(p) = x.attrs.parameterized_parent_attr(&ctx.struct_attr.ty).map(|a| a.child_fields.as_ref().unwrap()) {
                 p.iter().map(|p| make_tuple(format!("{}{}", &x.member_str, &p.sub_path_tokens.to_string().replace(' ', "")), FieldData::ParentChildField(x, p)).0).collect()
             } else {
-                let path = x.attrs.child(&ctx.struct_attr.ty).map(|x| x.get_child_path_str(None)).unwrap_or(&x.member_str);
+                // Only Into kinds build the counterpart's nested structs, so only they group members by child path.
+                // From kinds fill this struct's own members, which must stay in declaration order (tuple structs are positional).
+                let path = if ctx.kind.is_from() { &x.member_str } else { x.attrs.child(&ctx.struct_attr.ty).map(|x| x.get_child_path_str(None)).unwrap_or(&x.member_str) };
                 vec![make_tuple(path.to_string(), FieldData::Field(x)).0]
             };
             fields.into_iter()
